@@ -16,6 +16,7 @@
 #include <fcppt/optional/object_impl.hpp>
 #include <ios>
 #include <istream>
+#include <sstream>
 #include <streambuf>
 #include <string>
 #include <cwchar>
@@ -218,12 +219,82 @@ extern "C" std::wistream &c12_wseekg(std::wistream *const self, std::wstreampos 
 extern "C" void c12_wclear(std::basic_ios<wchar_t> *, std::ios_base::iostate const s) { *c12::msv<wchar_t>.state = static_cast<unsigned>(s); }
 // fcppt::io::stream_to_string(istream&): "Reads the contents of a stream into a string": output << input.rdbuf()
 // drains the BUFFER (the istream's state bits are not touched); empty optional if input.fail()
-extern "C" fcppt::optional::object<std::string> c12_stream_to_string(std::istream &)
+namespace c12
 {
-  using namespace c12;
-  std::string rest{};
-  while (ms.off < ms.n)
-    rest.push_back(ms.text[ms.off++]);
-  return (*ms.state & (failbit | badbit)) != 0 ? fcppt::optional::object<std::string>{} : fcppt::optional::object<std::string>{std::move(rest)};
+template <typename Ch>
+fcppt::optional::object<std::basic_string<Ch>> model_stream_to_string()
+{
+  auto &m = msv<Ch>;
+  std::basic_string<Ch> rest{};
+  while (m.off < m.n)
+    rest.push_back(m.text[m.off++]);
+  return (*m.state & (failbit | badbit)) != 0 ? fcppt::optional::object<std::basic_string<Ch>>{}
+                                              : fcppt::optional::object<std::basic_string<Ch>>{std::move(rest)};
+}
+// std::basic_istringstream<Ch>(basic_string&&, openmode) / ~basic_istringstream(): extern templates of libstdc++, so the
+// calls inside the REAL parse_string / phrase_parse_string / grammar_parse_string survive and are redirected here
+// (engine only).  The constructor lays out, inside the caller's own storage for the istringstream, exactly what the
+// inlined accessors read - the vptr (for the virtual-base offset), ios_base::_M_flags (unsetf(skipws)), _M_exception,
+// _M_streambuf_state - and loads the string into the model text.  Layout of libstdc++'s basic_istringstream: basic_istream
+// part (vptr, _M_gcount: 16 bytes), basic_stringbuf (104 bytes), then the virtual base basic_ios at 120; the native
+// build asserts these offsets against the real class (check_istringstream_layout).
+constexpr long iss_vbase = 120;
+// stand-in for the vtables of basic_istringstream: only vptr[-3], the virtual-base offset, is ever read
+inline long iss_vt[4] = {iss_vbase, 0, 0, 0};
+template <typename Ch>
+void model_iss_ctor(void *const self, std::basic_string<Ch> &&s)
+{
+  unsigned char *const raw = static_cast<unsigned char *>(self);
+  *reinterpret_cast<long **>(raw) = &iss_vt[3];
+  // the inlined destructor destroys the stringbuf's std::string (at 16 + 72): give it the empty small-string state
+  *reinterpret_cast<unsigned char **>(raw + 88) = raw + 104;
+  *reinterpret_cast<unsigned long *>(raw + 96) = 0;
+  raw[104] = 0;
+  *reinterpret_cast<void **>(raw + 72) = nullptr; // the streambuf's locale (destroyed by the opaque-locale model)
+  *reinterpret_cast<unsigned *>(raw + iss_vbase + 24) = static_cast<unsigned>(std::ios_base::skipws | std::ios_base::dec); // _M_flags
+  *reinterpret_cast<unsigned *>(raw + iss_vbase + 28) = 0; // _M_exception
+  auto &m = msv<Ch>;
+  m.state = reinterpret_cast<unsigned *>(raw + iss_vbase + 32);
+  *m.state = 0;
+  m.n = static_cast<long>(s.size());
+  m.off = 0;
+  m.gets = m.tells = m.seeks = 0;
+  verif_assert(s.size() <= max_text, "model text capacity");
+  for (unsigned i = 0; i < max_text; ++i)
+    m.text[i] = i < s.size() ? s[i] : Ch{};
+}
+#ifdef VERIF_NATIVE
+template <typename Ch>
+void check_istringstream_layout()
+{
+  std::basic_istringstream<Ch> x{};
+  std::ios_base &base = x;
+  std::basic_istream<Ch> &is = x;
+  x.clear(std::ios_base::failbit);
+  bool ok = reinterpret_cast<char *>(&base) - reinterpret_cast<char *>(&x) == iss_vbase &&
+            reinterpret_cast<char *>(&is) == reinterpret_cast<char *>(&x) &&
+            *reinterpret_cast<unsigned *>(reinterpret_cast<char *>(&base) + 32) == 4U;
+  x.clear();
+  x.unsetf(std::ios_base::skipws);
+  ok = ok && *reinterpret_cast<unsigned *>(reinterpret_cast<char *>(&base) + 24) == static_cast<unsigned>(x.flags()) && (x.flags() & std::ios_base::skipws) == 0;
+  verif_assert(ok, "libstdc++ istringstream layout assumed by the engine-side model");
+}
+#else
+template <typename Ch>
+void check_istringstream_layout()
+{
+}
+#endif
+}
+extern "C" fcppt::optional::object<std::string> c12_stream_to_string(std::istream &) { return c12::model_stream_to_string<char>(); }
+extern "C" fcppt::optional::object<std::wstring> c12_wstream_to_string(std::wistream &) { return c12::model_stream_to_string<wchar_t>(); }
+extern "C" void c12_iss_ctor(void *const self, std::string &&s, std::ios_base::openmode) { c12::model_iss_ctor<char>(self, std::move(s)); }
+extern "C" void c12_wiss_ctor(void *const self, std::wstring &&s, std::ios_base::openmode) { c12::model_iss_ctor<wchar_t>(self, std::move(s)); }
+extern "C" void c12_iss_dtor(void *) {}
+extern "C" void c12_ios_base_dtor(void *) {} // std::ios_base::~ios_base(): callbacks / locale of the fake object: nothing to do
+// the VTT of basic_istringstream<char/wchar_t> (a data symbol of libstdc++ read by the inlined destructor): every entry
+// is a vtable pointer whose only used slot is the virtual-base offset
+extern "C" {
+long *c12_iss_vtt[4] = {&c12::iss_vt[3], &c12::iss_vt[3], &c12::iss_vt[3], &c12::iss_vt[3]};
 }
 #endif
